@@ -33,7 +33,8 @@ Print Assumptions C09_gc_terminates.
 
 (* GC keeps exactly the live set [Live]: the least set containing everything reachable
    (through stored content) from a tagged descriptor and, for every digest-indexed descriptor
-   whose subject chain meets a live node, everything reachable from it.  Blob files and graph
+   whose subject chain meets a live manifest, everything reachable from it (a blob named as
+   subject keeps nothing alive).  Blob files and graph
    nodes afterwards = exactly Live; every tag is untouched; a live node's predecessors are
    exactly its live predecessors; stray files are removed iff they have a valid digest name in
    a known algorithm directory.  Independent of all iteration orders. *)
@@ -42,10 +43,10 @@ Theorem C09_gc_exact :
   forall kl ords st, same_elements ords (candidates (idx st)) ->
   exists st',
     gc succ subject manifest cfg_fixed kl ords st = (st', Ok) /\
-    (forall x, In x (blobs st') <-> In x (blobs st) /\ Live succ subject st x) /\
-    (forall x, In x (gnodes st') <-> Live succ subject st x) /\
+    (forall x, In x (blobs st') <-> In x (blobs st) /\ Live succ subject manifest st x) /\
+    (forall x, In x (gnodes st') <-> Live succ subject manifest st x) /\
     (forall t n, In (RTag t, n) (idx st') <-> In (RTag t, n) (idx st)) /\
-    (forall x p, In p (preds succ (gnodes st') x) <-> Live succ subject st p /\ In x (succ p)) /\
+    (forall x p, In p (preds succ (gnodes st') x) <-> Live succ subject manifest st p /\ In x (succ p)) /\
     (forall s, In s (strays st') <-> In s (strays st) /\ (s_known s && s_valid s = false)) /\
     autogc st' = autogc st.
 Proof. exact gc_exact_final. Qed.
@@ -78,10 +79,12 @@ Print Assumptions C09_gc_reopen.
    exactly [Gone]: the least set containing x, closed under "untagged manifest of the store
    whose subject (a manifest) was removed and all of whose holders were removed" and
    "untagged node of the store that had predecessors, all of which were removed" -- from the
-   storage, from the graph and from the reference index (so the tags of x go, and the digest
-   references of what is removed); every tag of another node stays.  A holder of r is a
-   predecessor that lists r other than as its subject: a referrer does not keep its subject
-   alive, every other link does. *)
+   storage, from the graph and from the reference index: no reference to a removed node
+   remains, every reference to a surviving node stays, the tags afterwards are exactly the
+   tags of the nodes other than x, and the only new references are by-digest references of
+   manifests (delete() lists a manifest that lost its last predecessor by its digest).  A holder of r is a
+   predecessor that has r among its entries (manifests, layers, config, blobs): a referrer
+   does not keep its subject alive through the subject field, every other link does. *)
 Theorem C09_delete_exact :
   forall succ subject manifest, acyclic succ -> subject_listed succ subject ->
   forall st x, wf st -> autogc st = true -> In x (blobs st) ->
@@ -90,8 +93,10 @@ Theorem C09_delete_exact :
     delete succ subject manifest cfg_fixed ord st x = (st', Ok) /\
     (forall y, In y (blobs st') <-> In y (blobs st) /\ ~ Gone succ subject manifest st x y) /\
     (forall y, In y (gnodes st') <-> In y (gnodes st) /\ ~ Gone succ subject manifest st x y) /\
-    (forall r n, In (r, n) (idx st') <-> In (r, n) (idx st) /\ ~ Gone succ subject manifest st x n) /\
-    (forall t n, In (RTag t, n) (idx st) -> n <> x -> In (RTag t, n) (idx st')) /\
+    (forall r n, In (r, n) (idx st') ->
+       ~ Gone succ subject manifest st x n /\ (In (r, n) (idx st) \/ (r = RDig n /\ manifest n = true))) /\
+    (forall r n, In (r, n) (idx st) -> ~ Gone succ subject manifest st x n -> In (r, n) (idx st')) /\
+    (forall t n, In (RTag t, n) (idx st') <-> In (RTag t, n) (idx st) /\ n <> x) /\
     (forall r, ~ In (r, x) (idx st')) /\
     strays st' = strays st /\ autogc st' = autogc st.
 Proof. exact delete_exact_final. Qed.
@@ -107,13 +112,14 @@ Proof. exact delete_terminates_final. Qed.
 Print Assumptions C09_delete_queue_terminates.
 
 (* What the cascade never takes: a tagged node; a node outside the store's graph; a node
-   that a surviving node still lists (every predecessor of a removed node, other than the
-   node's own referrers, is removed as well). *)
+   that a surviving node still lists: every predecessor that has the removed node among its
+   entries (manifests, layers, config, blobs -- [entries] = content.Successors minus the
+   subject field; a node that is both subject and entry counts) is removed as well. *)
 Theorem C09_delete_never :
   forall succ subject manifest st x y,
   Gone succ subject manifest st x y -> y <> x ->
   is_tagged st y = false /\ In y (gnodes st) /\
-  (forall p, In p (gnodes st) -> In y (succ p) -> subject p <> Some y ->
+  (forall p, In p (gnodes st) -> In y (entries succ subject p) ->
              Gone succ subject manifest st x p).
 Proof. exact delete_never_final. Qed.
 Print Assumptions C09_delete_never.
@@ -130,24 +136,47 @@ Theorem C09_delete_surviving_pred_refuted :
 Proof. exact delete_referrer_still_linked. Qed.
 Print Assumptions C09_delete_surviving_pred_refuted.
 
-(* AutoGC off: exactly the target (content, graph node, every reference to it) *)
+(* AutoGC off: exactly the target (content, graph node, every reference to it); [del_idx] =
+   the references not to x, plus a by-digest reference for every manifest that lost its last
+   predecessor and had none *)
 Theorem C09_delete_plain :
   forall succ subject manifest st x ord,
   reorders ord -> autogc st = false -> In x (blobs st) ->
   exists st',
     delete succ subject manifest cfg_fixed ord st x = (st', Ok) /\
     blobs st' = removeb x (blobs st) /\ gnodes st' = removeb x (gnodes st) /\
-    idx st' = filter (fun e => negb (Nat.eqb (snd e) x)) (idx st) /\
+    idx st' = del_idx succ manifest st x /\
     strays st' = strays st /\ autogc st' = autogc st.
 Proof. exact delete_plain_final. Qed.
 Print Assumptions C09_delete_plain.
 
-(* a target that is not stored: not found *)
+(* a target that is not stored: not found; the storage is untouched, but (as in Go's delete(),
+   which runs before storage.Delete fails) the references to x and its graph node are gone *)
 Theorem C09_delete_absent :
   forall succ subject manifest st x ord c,
-  ~ In x (blobs st) -> snd (delete succ subject manifest c ord st x) = ENotFound.
-Proof. exact delete_absent. Qed.
+  ~ In x (blobs st) ->
+  snd (delete succ subject manifest c ord st x) = ENotFound /\
+  blobs (fst (delete succ subject manifest c ord st x)) = blobs st /\
+  gnodes (fst (delete succ subject manifest c ord st x)) = removeb x (gnodes st) /\
+  idx (fst (delete succ subject manifest c ord st x)) = del_idx succ manifest st x.
+Proof. exact delete_absent_final. Qed.
 Print Assumptions C09_delete_absent.
+
+(* Every state the repaired code can reach with ANY iteration orders of Delete and GC
+   ([Hist]; [any] = true also allows reopening the store at arbitrary points, also on an
+   index.json that names only the tagged descriptors: OReopen / OForeign) is well-formed
+   (the hypothesis of C09_delete_exact) and free of stale tag-set entries; unless the store
+   is reopened at an arbitrary point every stored blob is a graph node, so [Gone] and
+   C09_delete_exact speak about the storage.  After an arbitrary reopen blobs that
+   index.json does not reach are unknown to the graph: Delete ignores them (they wait for
+   GC) -- outside the property's quantifier, run by the correspondence, not judged. *)
+Theorem C09_histories :
+  forall succ subject manifest, acyclic succ -> subject_listed succ subject ->
+  forall kl any st, Hist succ subject manifest kl any st ->
+  wf st /\ (forall n, is_tagged st n = true <-> exists t, In (RTag t, n) (idx st)) /\
+  (any = false -> forall y, In y (blobs st) -> In y (gnodes st)).
+Proof. exact hist_final. Qed.
+Print Assumptions C09_histories.
 
 (* the well-formedness hypothesis of C09_delete_exact holds after every history *)
 Theorem C09_store_wf :
@@ -214,6 +243,25 @@ Theorem C09_delete_skip_linked_refuted :
   is_tagged st 2 = false /\ is_tagged st 8 = false.
 Proof. exact delete_skip_linked_leaves_chain. Qed.
 Print Assumptions C09_delete_skip_linked_refuted.
+
+(* audit F-A: before the repair gcIndex kept a manifest whose subject is a (never stored)
+   layer that the rebuilt graph knows by reference *)
+Theorem C09_gc_blob_subject_refuted :
+  blobs (fst (step succ_w subject_w manifest_w cfg_noSubjM false (run_w cfg_noSubjM subjm_ops) OGC)) = [11; 10; 0] /\
+  blobs (fst (step succ_w subject_w manifest_w cfg_fixed false (run_w cfg_fixed subjm_ops) OGC)) = [10; 0] /\
+  manifest_w 9 = false /\ subject_w 11 = Some 9.
+Proof. exact gc_blob_subject_keeps_garbage. Qed.
+Print Assumptions C09_gc_blob_subject_refuted.
+
+(* audit F-C: before the repair a surviving index that lists a referrer and also names it as
+   its subject did not hold it *)
+Theorem C09_delete_subject_and_entry_refuted :
+  let st := run_w cfg_fixed [OPush 0; OPush 1; OPush 2; OPush 12; OTag 12 0] in
+  blobs (fst (delete succ_w subject_w manifest_w cfg_noEntry ord_id st 1)) = [12] /\
+  blobs (fst (delete succ_w subject_w manifest_w cfg_fixed ord_id st 1)) = [12; 2; 0] /\
+  In 2 (entries succ_w subject_w 12).
+Proof. exact delete_subject_and_entry. Qed.
+Print Assumptions C09_delete_subject_and_entry_refuted.
 
 (* ---- the hypotheses are satisfiable on non-trivial instances ---- *)
 Example C09_hyps_satisfiable : acyclic succ_w /\ subject_listed succ_w subject_w.
